@@ -112,13 +112,13 @@ pub fn keyset(k: u32, dir: u8) -> (Vec<u8>, Vec<u8>) {
 /// key ids ≡ 5 (mod 10) stand for unusable key material: `SrtpSession::new` accepts any length, every
 /// `SrtpContext::new` then fails, so every `protect_*` / `unprotect_*` returns `Err`
 pub fn broken(k: u32) -> bool { k % 10 == 5 }
-fn session(k: u32) -> SrtpSession {
+pub fn session(k: u32) -> SrtpSession {
     let (mut tk, ts) = keyset(k, 0);
     let (mut rk, rs) = keyset(k, 1);
     if broken(k) { tk.truncate(5); rk.truncate(5); }
     SrtpSession::new(SrtpProfile::Aes128Sha1_80, SrtpKeyingMaterial::new(tk, ts), SrtpKeyingMaterial::new(rk, rs)).unwrap()
 }
-fn ref_ctx(k: u32, dir: u8) -> Context {
+pub fn ref_ctx(k: u32, dir: u8) -> Context {
     let (key, salt) = keyset(k, dir);
     Context::new(&key, &salt, ProtectionProfile::Aes128CmHmacSha1_80, None, None).unwrap()
 }
